@@ -25,6 +25,12 @@ formatting on) against the model's `summary` op (`Model/C01Summary.extractorSumm
 `Model/C01Flags.configure`; `--batch-buffer 0`, `--workers 0/-3` accepted and correct); `filter -n NUM`
 with several workers/readers/files (early consumer exit): NUM' = min(NUM, M) lines printed, each one of the
 sequential keys and no key more often than it occurs, stderr `Matched: NUM' / NUM`, no hang.
+
+Round 4b (`run_exit`): the process exit code and the totals when some sources are not well-behaved files – a missing
+file, a directory given as a file (the first Read fails), files without any matching line, no match at all – for
+`rare filter` and `rare histo`, against the model's `pipex` op (`Model/C01Chunk`: `scanSrc`, `readErrors`,
+`determineErrorState`; theorem `cli_exit_code`): exit code 2 with `Read errors` as soon as one source failed, else 1
+when nothing matched, else 0; the good files are still read completely and counted.
 """
 import os, sys, re, csv, shutil, subprocess, collections
 sys.path.insert(0, os.path.dirname(__file__))
@@ -237,6 +243,69 @@ def run_flags(ctx, exe, driver, rnd, viol):
     return runs
 
 
+def run_exit(ctx, exe, driver, rnd, viol):
+    """exit code + totals with failing sources; returns the number of real runs"""
+    quick = ctx["tier"] == "quick"
+    root = os.path.join(ctx["work"], "cli-exit")
+    shutil.rmtree(root, ignore_errors=True)
+    os.makedirs(root)
+    nsets = 8 if quick else 60
+    cases, meta = [], []
+    for si in range(nsets):
+        d = os.path.join(root, "e%03d" % si)
+        os.makedirs(d)
+        nf = rnd.pick([1, 2, 3, 4])
+        items, files = [], []
+        for fi in range(nf):
+            name = "f%04d" % fi
+            files.append(name)
+            kind = rnd.pick(["d", "d", "d", "m", "D", "nomatch"]) if si >= 3 else ["d", "m", "D"][(si + fi) % 3]
+            if kind == "m":
+                items.append("m/-/.")
+            elif kind == "D":
+                os.makedirs(os.path.join(d, name))
+                items.append("D/-/0:f")
+            else:
+                body = gen_file(rnd, rnd.pick([0, 1, 3, 9])) if kind == "d" else b"ax\nx\n"
+                with open(os.path.join(d, name), "wb") as f:
+                    f.write(body)
+                items.append("d/%s/." % hx(body))
+        ig = rnd.pick([[], [], ["{1}"], ["{eq {line} 1}"], ["1"]])
+        igs_s = "N" if not ig else "+".join(hx(t.encode()) for t in ig)
+        cases.append("C01 pipex files 1 1 1 1 0 %s h %s %s" % (";".join(items), igs_s, hx(b"{0}")))
+        meta.append((d, files, ig))
+    runs = 0
+    for (d, files, ig), case, ans in zip(meta, cases, model_answers(driver, cases)):
+        if not ans.startswith("ok "):
+            viol("cli-model-answer", case=case, model=ans)
+            continue
+        f = dict(kv.split("=", 1) for kv in ans.split()[1:])
+        want = (int(f["read"]), int(f["matched"]), int(f["ignored"]))
+        want_rc, errs = int(f["exit"]), int(f["errors"])
+        args = ["-m", REGEX, "-e", "{0}"]
+        for t in ig:
+            args += ["-i", t]
+        par = ["--workers", str(rnd.pick([1, 2, 4])), "--batch", str(rnd.pick([1, 3, 1000])), "--readers", str(rnd.pick([1, 2, 3]))]
+        for sub in ("filter", "histo"):
+            cmd = [exe, "--nocolor", "--noformat", sub] + args + par + files
+            try:
+                p = subprocess.run(cmd, cwd=d, stdout=subprocess.PIPE, stderr=subprocess.PIPE, timeout=60)
+            except subprocess.TimeoutExpired:
+                viol("cli-exit-hang", case=case, cmd=" ".join(cmd[1:]))
+                continue
+            runs += 1
+            m = SUMMARY.search(p.stdout + b"\n" + p.stderr if sub == "histo" else p.stderr)
+            summ = (int(m.group(2)), int(m.group(1)), int(m.group(3) or 0)) if m else None
+            logged = p.stderr.count(b"Error opening file") + p.stderr.count(b"Error reading ")
+            if p.returncode != want_rc or summ != want or logged != errs or (errs > 0) != (b"Read errors" in p.stderr) \
+                    or b"panic" in p.stderr:
+                viol("cli-exit-code", case=case, cmd=" ".join(cmd[1:]), cwd=d, rc=p.returncode, want_rc=want_rc,
+                     got="read=%s matched=%s ignored=%s" % (summ if summ else ("?", "?", "?")),
+                     want="read=%d matched=%d ignored=%d" % want, logged_errors=logged, want_errors=errs,
+                     stderr=p.stderr[-200:].decode(errors="replace"))
+    return runs
+
+
 def run_extra(ctx):
     rnd = Rand(ctx["seed"] * 7919 + 101)
     exe = build_rare(ctx)
@@ -365,9 +434,11 @@ def run_extra(ctx):
                          got=sorted((k.hex(), v) for k, v in counted.items())[:6],
                          want=sorted((k.hex(), v) for k, v in want.items())[:6])
     runs += run_flags(ctx, exe, driver, rnd, viol)
+    runs += run_exit(ctx, exe, driver, rnd, viol)
     if not violations:
         shutil.rmtree(root, ignore_errors=True)
         shutil.rmtree(os.path.join(ctx["work"], "cli-flags"), ignore_errors=True)
+        shutil.rmtree(os.path.join(ctx["work"], "cli-exit"), ignore_errors=True)
     return {"runs": runs, "violations": violations, "model_declined": skipped,
             "assumptions": ["CLI step: the harness matcher of the model is handed to rare as the regular expression "
                             + REGEX + " (the regex engine is a trusted library); keys are compared as multisets "
